@@ -626,6 +626,16 @@ void sim_block_epoll(int epfd, const char *site) {
 void sim_yield_spin(const char *site);
 void sim_yield_spin(const char *site) { sim_yield_yieldy(site); }
 
+#ifdef SIM_ASAN
+void __asan_on_error(void);
+void __asan_on_error(void) {
+	char buf[200];
+	int n = snprintf(buf, sizeof(buf), "\nCRASH sig=0 addr=0 fiber=%d site=%s step=%llu ctx=%s\n", S.cur,
+	    (S.cur >= 0 && S.fb[S.cur].last_site) ? S.fb[S.cur].last_site : "-", (unsigned long long)S.step, S.ctx_tag[0] ? S.ctx_tag : "-");
+	if (n > 0) (void)!write(2, buf, (size_t)n);
+}
+#endif
+
 /* ================================================================= crash handling */
 static stack_t g_altstack;
 static struct sigaction g_old_segv, g_old_bus;
